@@ -788,6 +788,54 @@ theorem sd_call_default_first_stored (keys0 : List K) (v0 : V) (k0 : K) (hk0 : k
   simpa only [sdCallRun, List.map_cons, SCall.toOp, SKeyArg.items, classifyNames_map_ok] using h
 
 
+/-! ## outside the property, as coded: the NAME `default` (why the assumption "names differ from `default`" is needed) -/
+
+/-- **C15.44** `sd["default"] = v` (as coded, `dn` = the key spelled `"default"`): whenever it succeeds, `v` IS
+    the default afterwards — whatever strategy was stored first — because the attribute exposing the name is
+    the instance's `default`; and while the name is not stored, deleting it is the ordinary `KeyError` -/
+theorem default_name_becomes_default (s : SD K V) (dn : K) (v : V) :
+    ((sdSetDefaultName s dn v).2 = .done → sdDefault (sdSetDefaultName s dn v).1 = some v ∧
+        sdGetattr (sdSetDefaultName s dn v).1 none = some v) ∧
+    (key2keys s.mkd dn = none → sdDelDefaultName s dn = (s, .keyError)) := by
+  constructor
+  · intro h
+    unfold sdSetDefaultName at h ⊢
+    generalize sdDelDefaultName s dn = r at h ⊢
+    obtain ⟨s1, r1⟩ := r
+    cases r1 <;> first
+      | (simp only at h; cases h)
+      | (simp only at h ⊢
+         cases hs : setitem s1.mkd [dn] v with
+         | none => rw [hs] at h; simp only at h; cases h
+         | some mk' => simp only [sdDefault, sdGetattr, dget_dset]; simp)
+  · intro h
+    simp only [sdDelDefaultName, h]
+
+/-- **C15.45** … so with that name the clauses of the property fail (the model follows the code, the tie
+    runs it — entry `sdn`): after `sd["a"] = 10; sd["default"] = 20` the default is 20, not the first
+    strategy stored, although `a` still holds it (cf. C15.17); `del sd["default"]` then raises
+    `AttributeError` AFTER the item and the default were removed (cf. C15.29: in the property's domain an
+    operation that raises leaves no trace); and assigning the name a second time fails half-way the same way -/
+theorem default_name_breaks_the_clauses :
+    let s0 := (sdRun (SD.empty : SD Nat Nat) [.set [1] 10]).1
+    let s1 := (sdSetDefaultName s0 9 20).1
+    (sdSetDefaultName s0 9 20).2 = .done ∧ sdDefault s0 = some 10 ∧ sdDefault s1 = some 20 ∧
+      getitem s1.mkd 1 = some 10 ∧ getitem s1.mkd 9 = some 20 ∧
+    (sdDelDefaultName s1 9).2 = .attrError ∧ getitem (sdDelDefaultName s1 9).1.mkd 9 = none ∧
+      sdDefault (sdDelDefaultName s1 9).1 = none ∧ len (sdDelDefaultName s1 9).1.mkd = 1 ∧
+    (sdSetDefaultName s1 9 30).2 = .attrError ∧ getitem (sdSetDefaultName s1 9 30).1.mkd 9 = none ∧
+    (sdDelattrDefaultName s1 9).2 = .attrError ∧ getitem (sdDelattrDefaultName s1 9).1.mkd 9 = none := by
+  decide
+
+/-- **C15.46** … and a default that keeps another name is still dropped: `sd["default", …]`-free witness
+    `sd["default"] = 20; sd["a"] = 20` (one strategy, names `default` and `a`), then `del sd["default"]`
+    succeeds and removes the default although the strategy keeps the name `a` (cf. C15.19) -/
+theorem default_name_drops_default_that_keeps_a_name :
+    let s := (sdStep (sdSetDefaultName (SD.empty : SD Nat Nat) 9 20).1 (.set [1] 20)).1
+    value2keys s.mkd 20 = [9, 1] ∧ sdDefault s = some 20 ∧ (sdDelDefaultName s 9).2 = .done ∧
+      getitem (sdDelDefaultName s 9).1.mkd 1 = some 20 ∧ sdDefault (sdDelDefaultName s 9).1 = none := by
+  decide
+
 /-! ## non-vacuity: the hypotheses are satisfiable and the statements speak about real histories -/
 
 /-- the docstring example of `MultiKeyDict` -/
